@@ -1,5 +1,6 @@
 /-
-C12 — helper lemmas: finite sums, triplet lists, harmonic combination, incidence of well-formed grids.
+C12 — helper lemmas: finite sums, triplet lists, harmonic combination, incidence of well-formed grids,
+vector source, and the comparison with the C11 MPFA model on K-orthogonal 2-D grids.
 -/
 import Mathlib.Algebra.Order.Field.Rat
 import Mathlib.Tactic.Ring
@@ -7,6 +8,7 @@ import Mathlib.Tactic.Linarith
 import Mathlib.Tactic.FieldSimp
 import Mathlib.Tactic.Positivity
 import Mathlib.Tactic.LinearCombination
+import PorepyVerif.C11.Lemmas
 import PorepyVerif.C12.Model
 
 namespace PorepyVerif.C12
@@ -220,81 +222,6 @@ theorem rowApply_weight (W : Nat → Rat) (l : List HF) (f : Nat) (p : Nat → R
     · rw [if_pos hc, List.filter_cons_of_pos (by simpa using hc), hc]; simp; ring
     · rw [if_neg hc, List.filter_cons_of_neg (by simpa using hc)]; simp
 
-/-! ### vector source -/
-
-theorem rowApply_append (l1 l2 : List Trip) (f : Nat) (v : Nat → Rat) :
-    rowApply (l1 ++ l2) f v = rowApply l1 f v + rowApply l2 f v := by
-  induction l1 with
-  | nil => simp [rowApply]
-  | cons t l ih =>
-    obtain ⟨a, b, w⟩ := t
-    simp only [List.cons_append, rowApply, ih]; ring
-
-theorem rowApply_range (n a : Nat) (b : Nat → Nat) (w : Nat → Rat) (f : Nat) (v : Nat → Rat) :
-    rowApply ((List.range n).map (fun k => (a, b k, w k))) f v
-      = if a = f then sumTo n (fun k => w k * v (b k)) else 0 := by
-  induction n with
-  | zero => simp [rowApply, sumTo]
-  | succ n ih =>
-    rw [List.range_succ, List.map_append, rowApply_append, ih]
-    simp only [List.map_cons, List.map_nil, rowApply, sumTo]
-    split_ifs <;> ring
-
-theorem vsVec_at (vsd : Nat) (G : V3) (c k : Nat) (hk : k < vsd) : vsVec vsd G (c * vsd + k) = G.get k := by
-  unfold vsVec
-  rw [Nat.mul_comm, Nat.mul_add_mod, Nat.mod_eq_of_lt hk]
-
-/-- `Σ_{k<vsd} d_k G_k` is the full dot product when the components beyond `vsd` do not contribute -/
-theorem sumTo_dot (vsd : Nat) (d G : V3) (h1 : 1 ≤ vsd) (h3 : vsd ≤ 3)
-    (hz : ∀ k, vsd ≤ k → k < 3 → d.get k * G.get k = 0) :
-    sumTo vsd (fun k => d.get k * G.get k) = d.dot G := by
-  have e3 : sumTo 3 (fun k => d.get k * G.get k) = d.dot G := by
-    simp only [sumTo, V3.get, V3.dot]; ring
-  rcases (by omega : vsd = 1 ∨ vsd = 2 ∨ vsd = 3) with rfl | rfl | rfl
-  · have a1 := hz 1 (by omega) (by omega)
-    have a2 := hz 2 (by omega) (by omega)
-    rw [← e3]; simp only [sumTo, a1, a2]; ring
-  · have a2 := hz 2 (by omega) (by omega)
-    rw [← e3]; simp only [sumTo, a2]; ring
-  · exact e3
-
-theorem vecSrc_rowApply (vsd : Nat) (W : HF → Nat → Rat) (l : List HF) (f : Nat) (v : Nat → Rat) :
-    rowApply (l.flatMap (fun h => (List.range vsd).map (fun k => (h.face, h.cell * vsd + k, W h k)))) f v
-      = ((l.filter (fun h => h.face == f)).map
-          (fun h => sumTo vsd (fun k => W h k * v (h.cell * vsd + k)))).sum := by
-  induction l with
-  | nil => simp [rowApply]
-  | cons h l ih =>
-    rw [List.flatMap_cons, rowApply_append, ih, rowApply_range]
-    by_cases hc : h.face = f
-    · rw [if_pos hc, List.filter_cons_of_pos (by simpa using hc)]; simp
-    · rw [if_neg hc, List.filter_cons_of_neg (by simpa using hc)]; simp
-
-
-theorem vecSrc_inner (g : Grid) (vsd : Nat) (G : V3) (h : HF) (T : Rat) (h1 : 1 ≤ vsd) (h3 : vsd ≤ 3)
-    (hz : ∀ k, vsd ≤ k → k < 3 → (dvec g h).get k * G.get k = 0) :
-    sumTo vsd (fun k => (T * (dvec g h).get k * h.sgn) * vsVec vsd G (h.cell * vsd + k))
-      = T * (h.sgn * (dvec g h).dot G) := by
-  rw [← sumTo_dot vsd (dvec g h) G h1 h3 hz, ← sumTo_mul_left, ← sumTo_mul_left]
-  apply sumTo_congr
-  intro k hk
-  rw [vsVec_at vsd G h.cell k hk]; ring
-
-/-- hydrostatic bookkeeping on the half-faces of one face -/
-theorem hydro_sum (g : Grid) (f : Nat) (a : Rat) (G : V3) (p : Nat → Rat)
-    (hp : ∀ c, p c = a + G.dot (g.cc c)) (l : List HF) (hl : ∀ h ∈ l, h.face = f) :
-    sgnDot l p + (l.map (fun h => h.sgn * (dvec g h).dot G)).sum = (a + G.dot (g.fc f)) * sgnSum l := by
-  induction l with
-  | nil => simp [sgnDot, sgnSum]
-  | cons h l ih =>
-    have ih' := ih (fun x hx => hl x (by simp [hx]))
-    have hf : h.face = f := hl h (by simp)
-    simp only [sgnDot, sgnSum, List.map_cons, List.sum_cons]
-    have : (dvec g h).dot G = G.dot (g.fc f) - G.dot (g.cc h.cell) := by
-      unfold dvec; rw [hf, dot_sub_left, dot_comm (g.cc h.cell) G, dot_comm (g.fc f) G]
-    rw [this, hp h.cell]
-    linear_combination ih'
-
 /-! ### conservation bookkeeping -/
 
 def tot : List HF → (Nat → Rat) → Rat
@@ -470,5 +397,562 @@ theorem tHalf_of_Korth (g : Grid) (h : HF) (lam : Rat)
   unfold tHalf
   rw [hK, dot_smul_right]
   field_simp
+
+/-! ### vector source -/
+
+theorem rowApply_append (l1 l2 : List Trip) (f : Nat) (v : Nat → Rat) :
+    rowApply (l1 ++ l2) f v = rowApply l1 f v + rowApply l2 f v := by
+  induction l1 with
+  | nil => simp [rowApply]
+  | cons t l ih =>
+    obtain ⟨a, b, w⟩ := t
+    simp only [List.cons_append, rowApply, ih]; ring
+
+theorem rowApply_range (n a : Nat) (b : Nat → Nat) (w : Nat → Rat) (f : Nat) (v : Nat → Rat) :
+    rowApply ((List.range n).map (fun k => (a, b k, w k))) f v
+      = if a = f then sumTo n (fun k => w k * v (b k)) else 0 := by
+  induction n with
+  | zero => simp [rowApply, sumTo]
+  | succ n ih =>
+    rw [List.range_succ, List.map_append, rowApply_append, ih]
+    simp only [List.map_cons, List.map_nil, rowApply, sumTo]
+    split_ifs <;> ring
+
+theorem vsVec_at (vsd : Nat) (G : V3) (c k : Nat) (hk : k < vsd) : vsVec vsd G (c * vsd + k) = G.get k := by
+  unfold vsVec
+  rw [Nat.mul_comm, Nat.mul_add_mod, Nat.mod_eq_of_lt hk]
+
+/-- `Σ_{k<vsd} d_k G_k` is the full dot product when the components beyond `vsd` do not contribute -/
+theorem sumTo_dot (vsd : Nat) (d G : V3) (h1 : 1 ≤ vsd) (h3 : vsd ≤ 3)
+    (hz : ∀ k, vsd ≤ k → k < 3 → d.get k * G.get k = 0) :
+    sumTo vsd (fun k => d.get k * G.get k) = d.dot G := by
+  have e3 : sumTo 3 (fun k => d.get k * G.get k) = d.dot G := by
+    simp only [sumTo, V3.get, V3.dot]; ring
+  rcases (by omega : vsd = 1 ∨ vsd = 2 ∨ vsd = 3) with rfl | rfl | rfl
+  · have a1 := hz 1 (by omega) (by omega)
+    have a2 := hz 2 (by omega) (by omega)
+    rw [← e3]; simp only [sumTo, a1, a2]; ring
+  · have a2 := hz 2 (by omega) (by omega)
+    rw [← e3]; simp only [sumTo, a2]; ring
+  · exact e3
+
+theorem vecSrc_rowApply (vsd : Nat) (W : HF → Nat → Rat) (l : List HF) (f : Nat) (v : Nat → Rat) :
+    rowApply (l.flatMap (fun h => (List.range vsd).map (fun k => (h.face, h.cell * vsd + k, W h k)))) f v
+      = ((l.filter (fun h => h.face == f)).map
+          (fun h => sumTo vsd (fun k => W h k * v (h.cell * vsd + k)))).sum := by
+  induction l with
+  | nil => simp [rowApply]
+  | cons h l ih =>
+    rw [List.flatMap_cons, rowApply_append, ih, rowApply_range]
+    by_cases hc : h.face = f
+    · rw [if_pos hc, List.filter_cons_of_pos (by simpa using hc)]; simp
+    · rw [if_neg hc, List.filter_cons_of_neg (by simpa using hc)]; simp
+
+
+theorem vecSrc_inner (g : Grid) (vsd : Nat) (G : V3) (h : HF) (T : Rat) (h1 : 1 ≤ vsd) (h3 : vsd ≤ 3)
+    (hz : ∀ k, vsd ≤ k → k < 3 → (dvec g h).get k * G.get k = 0) :
+    sumTo vsd (fun k => (T * (dvec g h).get k * h.sgn) * vsVec vsd G (h.cell * vsd + k))
+      = T * (h.sgn * (dvec g h).dot G) := by
+  rw [← sumTo_dot vsd (dvec g h) G h1 h3 hz, ← sumTo_mul_left, ← sumTo_mul_left]
+  apply sumTo_congr
+  intro k hk
+  rw [vsVec_at vsd G h.cell k hk]; ring
+
+/-- hydrostatic bookkeeping on the half-faces of one face -/
+theorem hydro_sum (g : Grid) (f : Nat) (a : Rat) (G : V3) (p : Nat → Rat)
+    (hp : ∀ c, p c = a + G.dot (g.cc c)) (l : List HF) (hl : ∀ h ∈ l, h.face = f) :
+    sgnDot l p + (l.map (fun h => h.sgn * (dvec g h).dot G)).sum = (a + G.dot (g.fc f)) * sgnSum l := by
+  induction l with
+  | nil => simp [sgnDot, sgnSum]
+  | cons h l ih =>
+    have ih' := ih (fun x hx => hl x (by simp [hx]))
+    have hf : h.face = f := hl h (by simp)
+    simp only [sgnDot, sgnSum, List.map_cons, List.sum_cons]
+    have : (dvec g h).dot G = G.dot (g.fc f) - G.dot (g.cc h.cell) := by
+      unfold dvec; rw [hf, dot_sub_left, dot_comm (g.cc h.cell) G, dot_comm (g.fc f) G]
+    rw [this, hp h.cell]
+    linear_combination ih'
+
+/-! ### TPFA vs. the certified 2-D MPFA model of C11 on K-orthogonal grids
+
+Strategy: under `KorthOK` the flux functional of every half-face only sees `g . d` (`nKg_korth`); at a
+corner of a cell two faces meet with independent `d`'s, so Cramer's rule gives a sub-cell gradient with
+prescribed `g . d = π_f - p_c` for both faces (`grad_dot`), where `π_f` is the two-point face pressure
+(`facePi`).  These gradients satisfy every row of every interaction region (`tp_consistent`); the regions
+are certified nonsingular, so they ARE the MPFA solution (`C11.cert_solution`), whose sub-face fluxes add
+up to the two-point flux `tp2` (`mpfa_eq_tp2`).  On the other side the TPFA model on the converted grid
+evaluates to the same `tp2` (`tpfa_eq_tp2`). -/
+section VsMpfa
+open PorepyVerif.C11
+
+
+theorem len2 (x : Vec) (h : x.length = 2) : ∃ a b, x = [a, b] := by
+  match x, h with
+  | [a, b], _ => exact ⟨a, b, rfl⟩
+
+theorem len2' {α : Type} (x : List α) (h : x.length = 2) : ∃ a b, x = [a, b] := by
+  match x, h with
+  | [a, b], _ => exact ⟨a, b, rfl⟩
+
+/-- Cramer's rule for two planar vectors -/
+def cramer : Vec → Vec → Rat → Rat → Vec
+  | [a, b], [c, d], r1, r2 => [(r1 * d - r2 * b) / (a * d - b * c), (a * r2 - c * r1) / (a * d - b * c)]
+  | _, _, _, _ => [0, 0]
+
+theorem cramer_len (x y : Vec) (r1 r2 : Rat) : (cramer x y r1 r2).length = 2 := by
+  unfold cramer; split <;> rfl
+
+theorem cramer_dot (x y : Vec) (r1 r2 : Rat) (hx : x.length = 2) (hy : y.length = 2) (hd : det2 x y ≠ 0) :
+    C11.dot (cramer x y r1 r2) x = r1 ∧ C11.dot (cramer x y r1 r2) y = r2 := by
+  obtain ⟨a, b, rfl⟩ := len2 x hx
+  obtain ⟨c, d, rfl⟩ := len2 y hy
+  simp only [det2] at hd
+  simp only [cramer, C11.dot_cons, C11.dot_nil_left]
+  constructor <;>
+  · rw [div_mul_eq_mul_div, div_mul_eq_mul_div, add_zero, ← add_div, div_eq_iff hd]; ring
+
+
+/-! extraction of the parts of `KorthOK` -/
+theorem korthOK_eta (G : Grid2) (h : KorthOK G = true) : G.eta = 0 := by
+  simp only [KorthOK, Bool.and_eq_true, beq_iff_eq] at h; exact h.1.1
+
+theorem korthOK_face (G : Grid2) (h : KorthOK G = true) (f : Nat) (hf : f < G.numFaces) :
+    faceKorth G f = true := by
+  simp only [KorthOK, Bool.and_eq_true, List.all_eq_true, List.mem_range] at h; exact h.1.2 f hf
+
+theorem korthOK_corner (G : Grid2) (h : KorthOK G = true) (v : Nat) (hv : v < G.numNodes) (c : Nat)
+    (hc : c ∈ G.cellsOf v) : cornerOK G v c = true := by
+  simp only [KorthOK, Bool.and_eq_true, List.all_eq_true, List.mem_range] at h; exact h.2 v hv c hc
+
+theorem faceKorth_bnd (G : Grid2) (f c : Nat) (s : Rat) (hl : G.fcells f = [(c, s)])
+    (h : faceKorth G f = true) :
+    (s = 1 ∨ s = -1) ∧ th2 G f c s ≠ 0 ∧
+      vecMat 2 (G.fnAt f) (G.permAt c) = C11.smul (s * th2 G f c s) (dvec2 G f c) := by
+  unfold faceKorth at h; rw [hl] at h
+  simpa [korthAt, and_assoc] using h
+
+theorem faceKorth_int (G : Grid2) (f c1 c2 : Nat) (s1 s2 : Rat) (hl : G.fcells f = [(c1, s1), (c2, s2)])
+    (h : faceKorth G f = true) :
+    (s1 = 1 ∨ s1 = -1) ∧ s2 = -s1 ∧ th2 G f c1 s1 ≠ 0 ∧ th2 G f c2 s2 ≠ 0 ∧
+      th2 G f c1 s1 + th2 G f c2 s2 ≠ 0 ∧
+      vecMat 2 (G.fnAt f) (G.permAt c1) = C11.smul (s1 * th2 G f c1 s1) (dvec2 G f c1) ∧
+      vecMat 2 (G.fnAt f) (G.permAt c2) = C11.smul (s2 * th2 G f c2 s2) (dvec2 G f c2) := by
+  unfold faceKorth at h; rw [hl] at h
+  simpa [korthAt, and_assoc] using h
+
+/-! lengths from `Grid2.WF` -/
+theorem wf_fn (G : Grid2) (hwf : G.WF) (f : Nat) (hf : f < G.numFaces) : (G.fnAt f).length = 2 := by
+  obtain ⟨_, _, hfn, _, _, _, _, hfns, _⟩ := hwf
+  exact hfns _ (getD_mem' G.faceNormals f [] (by rw [hfn]; exact hf))
+theorem wf_fc (G : Grid2) (hwf : G.WF) (f : Nat) (hf : f < G.numFaces) : (G.fcAt f).length = 2 := by
+  obtain ⟨_, hfcen, _, _, _, _, hfcs, _⟩ := hwf
+  exact hfcs _ (getD_mem' G.faceCenters f [] (by rw [hfcen]; exact hf))
+theorem wf_cc (G : Grid2) (hwf : G.WF) (c : Nat) (hc : c < G.numCells) : (G.ccAt c).length = 2 := by
+  obtain ⟨_, _, _, _, _, hcc, _⟩ := hwf
+  exact hcc _ (getD_mem' G.cellCenters c [] hc)
+theorem wf_perm (G : Grid2) (hwf : G.WF) (c : Nat) (hc : c < G.numCells) :
+    (G.permAt c).length = 2 ∧ ∀ r ∈ G.permAt c, r.length = 2 := by
+  obtain ⟨_, _, _, hperm, _, _, _, _, hK, _⟩ := hwf
+  exact hK _ (getD_mem' G.perm c [] (by rw [hperm]; exact hc))
+theorem wf_node (G : Grid2) (hwf : G.WF) (v : Nat) (hv : v < G.numNodes) : (G.nodeAt v).length = 2 := by
+  obtain ⟨_, _, _, _, hnodes, _⟩ := hwf
+  exact hnodes _ (getD_mem' G.nodes v [] hv)
+theorem wf_dvec (G : Grid2) (hwf : G.WF) (f c : Nat) (hf : f < G.numFaces) (hc : c < G.numCells) :
+    (dvec2 G f c).length = 2 := by
+  unfold dvec2
+  rw [length_vsub _ _ (by rw [wf_fc G hwf f hf, wf_cc G hwf c hc]), wf_fc G hwf f hf]
+
+/-- the flux functional of a K-orthogonal half-face only sees the directional difference along `d` -/
+theorem nKg_korth (G : Grid2) (hwf : G.WF) (f c : Nat) (hc : c < G.numCells) (lam a : Rat)
+    (hk : vecMat 2 (G.fnAt f) (G.permAt c) = C11.smul lam (dvec2 G f c)) (g : Vec) :
+    nKg (C11.smul a (G.fnAt f)) (G.permAt c) g = a * (lam * C11.dot g (dvec2 G f c)) := by
+  unfold nKg
+  rw [C11.dot_smul_left, ← dot_vecMat 2 _ _ _ (wf_perm G hwf c hc).2, hk, C11.dot_smul_left, C11.dot_comm]
+
+/-! the two-point solution of an interaction region -/
+
+/-- face pressure of the two-point scheme -/
+def facePi (G : Grid2) (p bc : List Rat) (f : Nat) : Rat :=
+  match G.fcells f with
+  | [(c, s)] => if G.dirAt f then bc.getD f 0 else p.getD c 0 - bc.getD f 0 / th2 G f c s
+  | [(c1, s1), (c2, s2)] =>
+      (th2 G f c1 s1 * p.getD c1 0 + th2 G f c2 s2 * p.getD c2 0) / (th2 G f c1 s1 + th2 G f c2 s2)
+  | _ => 0
+
+def gradAt (G : Grid2) (p bc : List Rat) (v c : Nat) : Vec :=
+  match cfaces G v c with
+  | [f1, f2] => cramer (dvec2 G f1 c) (dvec2 G f2 c)
+      (facePi G p bc f1 - p.getD c 0) (facePi G p bc f2 - p.getD c 0)
+  | _ => [0, 0]
+
+def gradFnAt (G : Grid2) (p bc : List Rat) (v : Nat) : Nat → Vec :=
+  fun i => gradAt G p bc v ((G.cellsOf v).getD i 0)
+
+theorem gradAt_len (G : Grid2) (p bc : List Rat) (v c : Nat) : (gradAt G p bc v c).length = 2 := by
+  unfold gradAt; split
+  · exact cramer_len _ _ _ _
+  · rfl
+
+theorem mem_cellsOf_of (G : Grid2) (v f c : Nat) (s : Rat) (hf : f ∈ G.facesOf v)
+    (hcs : (c, s) ∈ G.fcells f) (hc : c < G.numCells) : c ∈ G.cellsOf v :=
+  (G.mem_cellsOf v c).mpr ⟨hc, f, hf, s, hcs⟩
+
+theorem grad_dot (G : Grid2) (hwf : G.WF) (hK : KorthOK G = true) (p bc : List Rat) (v : Nat)
+    (hv : v < G.numNodes) (f c : Nat) (s : Rat) (hf : f ∈ G.facesOf v) (hcs : (c, s) ∈ G.fcells f)
+    (hc : c < G.numCells) :
+    C11.dot (gradAt G p bc v c) (dvec2 G f c) = facePi G p bc f - p.getD c 0 := by
+  have hcm := mem_cellsOf_of G v f c s hf hcs hc
+  have hco := korthOK_corner G hK v hv c hcm
+  have hfm : f ∈ cfaces G v c := by
+    unfold cfaces
+    rw [List.mem_filter]
+    refine ⟨hf, ?_⟩
+    rw [List.any_eq_true]
+    exact ⟨(c, s), hcs, by simp⟩
+  unfold cornerOK at hco
+  unfold gradAt
+  split at hco
+  · rename_i f1 f2 heq
+    rw [heq] at hfm ⊢
+    have hd : det2 (dvec2 G f1 c) (dvec2 G f2 c) ≠ 0 := by simpa using hco
+    have hmem : ∀ x, x ∈ cfaces G v c → x < G.numFaces := by
+      intro x hx
+      unfold cfaces at hx
+      exact ((G.mem_facesOf v x).mp (List.mem_filter.mp hx).1).1
+    have h1 := wf_dvec G hwf f1 c (hmem f1 (by rw [heq]; simp)) hc
+    have h2 := wf_dvec G hwf f2 c (hmem f2 (by rw [heq]; simp)) hc
+    have := cramer_dot (dvec2 G f1 c) (dvec2 G f2 c) (facePi G p bc f1 - p.getD c 0)
+      (facePi G p bc f2 - p.getD c 0) h1 h2 hd
+    have hff : f = f1 ∨ f = f2 := by simpa using hfm
+    rcases hff with rfl | rfl
+    · exact this.1
+    · exact this.2
+  · exact absurd hco (by simp)
+
+theorem getD_loc (G : Grid2) (v c : Nat) (hc : c ∈ G.cellsOf v) : (G.cellsOf v).getD (G.loc v c) 0 = c := by
+  unfold Grid2.loc
+  rw [List.getD_eq_getElem?_getD, List.getElem?_eq_getElem (List.idxOf_lt_length_of_mem hc)]
+  simp
+
+theorem cellAt_loc (G : Grid2) (p bc : List Rat) (v c : Nat) (hc : c ∈ G.cellsOf v) :
+    (G.region p bc v).cellAt (G.loc v c) = G.mkCell p c := by
+  unfold Region.cellAt Grid2.region
+  simp only
+  rw [List.getD_eq_getElem?_getD, List.getElem?_map,
+    List.getElem?_eq_getElem (by exact G.loc_lt v c hc)]
+  simp [Grid2.loc]
+
+theorem gradFnAt_loc (G : Grid2) (p bc : List Rat) (v c : Nat) (hc : c ∈ G.cellsOf v) :
+    gradFnAt G p bc v (G.loc v c) = gradAt G p bc v c := by
+  unfold gradFnAt; rw [getD_loc G v c hc]
+
+
+theorem vadd_smul_zero (x y : Vec) (h : x.length = y.length) : vadd x (C11.smul 0 y) = x := by
+  induction x generalizing y with
+  | nil => simp
+  | cons a x ih =>
+    cases y with
+    | nil => simp at h
+    | cons b y => simp at h; simp [ih y h]
+
+/-- the explicit two-point flux on the C11 grid structure -/
+def tp2 (G : Grid2) (p bc : List Rat) (f : Nat) : Rat :=
+  match G.fcells f with
+  | [(c, s)] => if G.dirAt f then s * th2 G f c s * (p.getD c 0 - bc.getD f 0) else s * bc.getD f 0
+  | [(c1, s1), (c2, s2)] =>
+      s1 * (1 / (1 / th2 G f c1 s1 + 1 / th2 G f c2 s2)) * (p.getD c1 0 - p.getD c2 0)
+  | _ => 0
+
+/-- the two-point gradients satisfy every row of every interaction region -/
+theorem tp_consistent (G : Grid2) (hwf : G.WF) (hK : KorthOK G = true) (p bc : List Rat) (v : Nat)
+    (hv : v < G.numNodes) : (G.region p bc v).Consistent (gradFnAt G p bc v) := by
+  intro sf hsf
+  simp only [Grid2.region, List.mem_map] at hsf
+  obtain ⟨f, hf0, rfl⟩ := hsf
+  obtain ⟨hflt, hvf⟩ := (G.mem_facesOf v f).mp hf0
+  have hfk := korthOK_face G hK f hflt
+  rcases G.fcells_cases hwf f hflt with ⟨c, s, hl, hc⟩ | ⟨c1, s1, c2, s2, hl, hc1, hc2, hne⟩
+  · have hcs : (c, s) ∈ G.fcells f := by rw [hl]; simp
+    have hcm := mem_cellsOf_of G v f c s hf0 hcs hc
+    obtain ⟨hs, hth, hko⟩ := faceKorth_bnd G f c s hl hfk
+    have hgd := grad_dot G hwf hK p bc v hv f c s hf0 hcs hc
+    rw [G.mkFace_bnd bc v f c s hl]
+    by_cases hd : G.dirAt f = true
+    · rw [if_pos hd]
+      show presAt ((G.region p bc v).cellAt (G.loc v c)) (gradFnAt G p bc v (G.loc v c)) (G.fcAt f)
+        = bc.getD f 0
+      rw [cellAt_loc G p bc v c hcm, gradFnAt_loc G p bc v c hcm]
+      have hpi : facePi G p bc f = bc.getD f 0 := by unfold facePi; rw [hl]; simp [hd]
+      show p.getD c 0 + C11.dot (gradAt G p bc v c) (dvec2 G f c) = _
+      rw [hgd, hpi]; ring
+    · rw [if_neg hd]
+      show s * nKg (C11.smul (1 / G.nN f) (G.fnAt f)) ((G.region p bc v).cellAt (G.loc v c)).K
+          (gradFnAt G p bc v (G.loc v c)) = -(bc.getD f 0 / G.nN f)
+      rw [cellAt_loc G p bc v c hcm, gradFnAt_loc G p bc v c hcm]
+      show s * nKg (C11.smul (1 / G.nN f) (G.fnAt f)) (G.permAt c) (gradAt G p bc v c) = _
+      have hpi : facePi G p bc f = p.getD c 0 - bc.getD f 0 / th2 G f c s := by
+        unfold facePi; rw [hl]; simp [hd]
+      rw [nKg_korth G hwf f c hc _ _ hko, hgd, hpi]
+      rcases hs with rfl | rfl <;> field_simp <;> ring
+  · have hcs1 : (c1, s1) ∈ G.fcells f := by rw [hl]; simp
+    have hcs2 : (c2, s2) ∈ G.fcells f := by rw [hl]; simp
+    have hm1 := mem_cellsOf_of G v f c1 s1 hf0 hcs1 hc1
+    have hm2 := mem_cellsOf_of G v f c2 s2 hf0 hcs2 hc2
+    obtain ⟨hs, hs2, ht1, ht2, hsum, hk1, hk2⟩ := faceKorth_int G f c1 c2 s1 s2 hl hfk
+    have hg1 := grad_dot G hwf hK p bc v hv f c1 s1 hf0 hcs1 hc1
+    have hg2 := grad_dot G hwf hK p bc v hv f c2 s2 hf0 hcs2 hc2
+    have hxc : vadd (G.fcAt f) (C11.smul G.eta (vsub (G.nodeAt v) (G.fcAt f))) = G.fcAt f := by
+      rw [korthOK_eta G hK]
+      apply vadd_smul_zero
+      rw [length_vsub _ _ (by rw [wf_node G hwf v hv, wf_fc G hwf f hflt]), wf_node G hwf v hv,
+        wf_fc G hwf f hflt]
+    rw [G.mkFace_int bc v f c1 c2 s1 s2 hl, hxc]
+    show nKg (C11.smul (1 / G.nN f) (G.fnAt f)) ((G.region p bc v).cellAt (G.loc v c1)).K
+          (gradFnAt G p bc v (G.loc v c1))
+        = nKg (C11.smul (1 / G.nN f) (G.fnAt f)) ((G.region p bc v).cellAt (G.loc v c2)).K
+          (gradFnAt G p bc v (G.loc v c2)) ∧
+      presAt ((G.region p bc v).cellAt (G.loc v c1)) (gradFnAt G p bc v (G.loc v c1)) (G.fcAt f)
+        = presAt ((G.region p bc v).cellAt (G.loc v c2)) (gradFnAt G p bc v (G.loc v c2)) (G.fcAt f)
+    rw [cellAt_loc G p bc v c1 hm1, gradFnAt_loc G p bc v c1 hm1, cellAt_loc G p bc v c2 hm2,
+      gradFnAt_loc G p bc v c2 hm2]
+    have hpi : facePi G p bc f = (th2 G f c1 s1 * p.getD c1 0 + th2 G f c2 s2 * p.getD c2 0)
+        / (th2 G f c1 s1 + th2 G f c2 s2) := by unfold facePi; rw [hl]
+    constructor
+    · show nKg (C11.smul (1 / G.nN f) (G.fnAt f)) (G.permAt c1) (gradAt G p bc v c1)
+        = nKg (C11.smul (1 / G.nN f) (G.fnAt f)) (G.permAt c2) (gradAt G p bc v c2)
+      rw [nKg_korth G hwf f c1 hc1 _ _ hk1, nKg_korth G hwf f c2 hc2 _ _ hk2, hg1, hg2, hpi]
+      generalize th2 G f c1 s1 = t1 at ht1 hsum ⊢
+      generalize th2 G f c2 s2 = t2 at ht2 hsum ⊢
+      rw [hs2]
+      field_simp
+      ring
+    · show p.getD c1 0 + C11.dot (gradAt G p bc v c1) (dvec2 G f c1)
+        = p.getD c2 0 + C11.dot (gradAt G p bc v c2) (dvec2 G f c2)
+      rw [hg1, hg2]; ring
+
+
+theorem sum_map_const {α : Type} (l : List α) (c : Rat) : (l.map (fun _ => c)).sum = (l.length : Rat) * c := by
+  induction l with
+  | nil => simp
+  | cons a l ih => simp only [List.map_cons, List.sum_cons, ih, List.length_cons]; push_cast; ring
+
+/-- sub-face flux of the two-point gradients: the `N`-th part of the two-point face flux -/
+theorem tp_subflux (G : Grid2) (hwf : G.WF) (hK : KorthOK G = true) (p bc : List Rat) (v : Nat)
+    (hv : v < G.numNodes) (f : Nat) (hf0 : f ∈ G.facesOf v) :
+    (G.mkFace bc v f).flux (G.region p bc v) (gradFnAt G p bc v) = 1 / G.nN f * tp2 G p bc f := by
+  obtain ⟨hflt, hvf⟩ := (G.mem_facesOf v f).mp hf0
+  have hfk := korthOK_face G hK f hflt
+  rcases G.fcells_cases hwf f hflt with ⟨c, s, hl, hc⟩ | ⟨c1, s1, c2, s2, hl, hc1, hc2, hne⟩
+  · have hcs : (c, s) ∈ G.fcells f := by rw [hl]; simp
+    have hcm := mem_cellsOf_of G v f c s hf0 hcs hc
+    obtain ⟨hs, hth, hko⟩ := faceKorth_bnd G f c s hl hfk
+    have hgd := grad_dot G hwf hK p bc v hv f c s hf0 hcs hc
+    rw [G.mkFace_bnd bc v f c s hl]
+    by_cases hd : G.dirAt f = true
+    · rw [if_pos hd]
+      show -(nKg (C11.smul (1 / G.nN f) (G.fnAt f)) ((G.region p bc v).cellAt (G.loc v c)).K
+          (gradFnAt G p bc v (G.loc v c))) = _
+      rw [cellAt_loc G p bc v c hcm, gradFnAt_loc G p bc v c hcm]
+      show -(nKg (C11.smul (1 / G.nN f) (G.fnAt f)) (G.permAt c) (gradAt G p bc v c)) = _
+      have hpi : facePi G p bc f = bc.getD f 0 := by unfold facePi; rw [hl]; simp [hd]
+      have htp : tp2 G p bc f = s * th2 G f c s * (p.getD c 0 - bc.getD f 0) := by
+        unfold tp2; rw [hl]; simp [hd]
+      rw [nKg_korth G hwf f c hc _ _ hko, hgd, hpi, htp]; ring
+    · rw [if_neg hd]
+      show -(nKg (C11.smul (1 / G.nN f) (G.fnAt f)) ((G.region p bc v).cellAt (G.loc v c)).K
+          (gradFnAt G p bc v (G.loc v c))) = _
+      rw [cellAt_loc G p bc v c hcm, gradFnAt_loc G p bc v c hcm]
+      show -(nKg (C11.smul (1 / G.nN f) (G.fnAt f)) (G.permAt c) (gradAt G p bc v c)) = _
+      have hpi : facePi G p bc f = p.getD c 0 - bc.getD f 0 / th2 G f c s := by
+        unfold facePi; rw [hl]; simp [hd]
+      have htp : tp2 G p bc f = s * bc.getD f 0 := by unfold tp2; rw [hl]; simp [hd]
+      rw [nKg_korth G hwf f c hc _ _ hko, hgd, hpi, htp]
+      field_simp
+      ring
+  · have hcs1 : (c1, s1) ∈ G.fcells f := by rw [hl]; simp
+    have hm1 := mem_cellsOf_of G v f c1 s1 hf0 hcs1 hc1
+    obtain ⟨hs, hs2, ht1, ht2, hsum, hk1, hk2⟩ := faceKorth_int G f c1 c2 s1 s2 hl hfk
+    have hg1 := grad_dot G hwf hK p bc v hv f c1 s1 hf0 hcs1 hc1
+    rw [G.mkFace_int bc v f c1 c2 s1 s2 hl]
+    show -(nKg (C11.smul (1 / G.nN f) (G.fnAt f)) ((G.region p bc v).cellAt (G.loc v c1)).K
+        (gradFnAt G p bc v (G.loc v c1))) = _
+    rw [cellAt_loc G p bc v c1 hm1, gradFnAt_loc G p bc v c1 hm1]
+    show -(nKg (C11.smul (1 / G.nN f) (G.fnAt f)) (G.permAt c1) (gradAt G p bc v c1)) = _
+    have hpi : facePi G p bc f = (th2 G f c1 s1 * p.getD c1 0 + th2 G f c2 s2 * p.getD c2 0)
+        / (th2 G f c1 s1 + th2 G f c2 s2) := by unfold facePi; rw [hl]
+    have htp : tp2 G p bc f = s1 * (1 / (1 / th2 G f c1 s1 + 1 / th2 G f c2 s2))
+        * (p.getD c1 0 - p.getD c2 0) := by unfold tp2; rw [hl]
+    rw [nKg_korth G hwf f c1 hc1 _ _ hk1, hg1, hpi, htp]
+    generalize th2 G f c1 s1 = t1 at ht1 hsum ⊢
+    generalize th2 G f c2 s2 = t2 at ht2 hsum ⊢
+    have hsum' : t2 + t1 ≠ 0 := by rwa [add_comm]
+    field_simp
+    ring
+
+/-- **MPFA = two-point formula** under K-orthogonality: the certified MPFA solution of every interaction
+    region is the two-point one (uniqueness), hence the assembled face flux is the two-point flux. -/
+theorem mpfa_eq_tp2 (G : Grid2) (hwf : G.WF) (hK : KorthOK G = true) (p bc : List Rat) (Ls : List Mat)
+    (hcert : G.certs = some Ls) (f : Nat) (hf : f < G.numFaces) :
+    G.faceFlux (G.nodeSols Ls p bc) bc f = tp2 G p bc f := by
+  obtain ⟨hne, hnodes⟩ := hwf.2.2.2.2.2.2.2.2.2.1 _ (getD_mem' G.faceNodes f [] hf)
+  change G.fnodes f ≠ [] at hne
+  change ∀ v ∈ G.fnodes f, v < G.numNodes at hnodes
+  have hN : ((G.fnodes f).length : Rat) ≠ 0 := by
+    have : (G.fnodes f).length ≠ 0 := fun h0 => hne (List.length_eq_zero_iff.mp h0)
+    exact_mod_cast this
+  unfold Grid2.faceFlux
+  have hterm : ∀ v ∈ G.fnodes f,
+      (G.mkFace bc v f).flux (Grid2.nodeSolAt (G.nodeSols Ls p bc) v).R
+          (gradFn (Grid2.nodeSolAt (G.nodeSols Ls p bc) v).Gs) = 1 / G.nN f * tp2 G p bc f := by
+    intro v hv
+    have hvn := hnodes v hv
+    have hf0 : f ∈ G.facesOf v := (G.mem_facesOf v f).mpr ⟨hf, hv⟩
+    rw [G.nodeSolAt_nodeSols Ls p bc v hvn]
+    have hRwf := G.region_wf hwf p bc v hvn
+    have hsol := cert_solution 2 _ _ hRwf (G.certs_ok Ls hcert p bc v hvn) (gradFnAt G p bc v)
+      (fun _ => gradAt_len G p bc v _) (tp_consistent G hwf hK p bc v hvn)
+    show (G.mkFace bc v f).flux (G.region p bc v) (gradFn (chunks 2 (G.region p bc v).cells.length
+      (mulVec (Ls.getD v []) ((G.region p bc v).rhs 2)))) = _
+    rw [hsol, ← tp_subflux G hwf hK p bc v hvn f hf0]
+    have hmem : G.mkFace bc v f ∈ (G.region p bc v).faces := by
+      simp only [Grid2.region, List.mem_map]
+      exact ⟨f, hf0, rfl⟩
+    have hi := idxOK_first _ _ (hRwf.2 _ hmem).2.2
+    unfold SubFace.flux
+    rw [gradFn_tabulate _ _ _ hi]
+  rw [List.map_congr_left hterm, sum_map_const]
+  unfold Grid2.nN
+  field_simp
+
+
+theorem filter_flatMap_range (F : Nat → List HF) (hF : ∀ k, ∀ h ∈ F k, h.face = k) (n f : Nat) :
+    ((List.range n).flatMap F).filter (fun h => h.face == f) = if f < n then F f else [] := by
+  induction n with
+  | zero => simp
+  | succ n ih =>
+    rw [List.range_succ, List.flatMap_append, List.filter_append, ih]
+    simp only [List.flatMap_cons, List.flatMap_nil, List.append_nil]
+    by_cases hfn : f = n
+    · subst hfn
+      have : (F f).filter (fun h => h.face == f) = F f := by
+        apply List.filter_eq_self.mpr
+        intro h hh; simpa using hF f h hh
+      simp [this]
+    · have : (F n).filter (fun h => h.face == f) = [] := by
+        apply List.filter_eq_nil_iff.mpr
+        intro h hh
+        have := hF n h hh
+        simp; omega
+      rw [this]
+      by_cases hlt : f < n
+      · simp [hlt, Nat.lt_succ_of_lt hlt]
+      · have : ¬ f < n + 1 := by omega
+        simp [hlt, this]
+
+theorem hfOf_ofGrid2 (G : Grid2) (f : Nat) (hf : f < G.numFaces) :
+    hfOf (ofGrid2 G) f = (G.fcells f).map (fun cs => (⟨f, cs.1, cs.2⟩ : HF)) := by
+  unfold hfOf ofGrid2
+  simp only
+  rw [filter_flatMap_range (fun f => (G.fcells f).map (fun cs => (⟨f, cs.1, cs.2⟩ : HF))) (by
+    intro k h hh
+    simp only [List.mem_map] at hh
+    obtain ⟨cs, _, rfl⟩ := hh
+    rfl) G.numFaces f, if_pos hf]
+
+theorem len2mat (K : Mat) (h : K.length = 2 ∧ ∀ r ∈ K, r.length = 2) :
+    ∃ a b c d, K = [[a, b], [c, d]] := by
+  obtain ⟨r1, r2, rfl⟩ := len2' K h.1
+  obtain ⟨a, b, rfl⟩ := len2 r1 (h.2 r1 (by simp))
+  obtain ⟨c, d, rfl⟩ := len2 r2 (h.2 r2 (by simp))
+  exact ⟨a, b, c, d, rfl⟩
+
+
+theorem tHalf_ofGrid2 (G : Grid2) (hwf : G.WF) (f c : Nat) (s : Rat) (hf : f < G.numFaces)
+    (hc : c < G.numCells) : tHalf (ofGrid2 G) ⟨f, c, s⟩ = th2 G f c s := by
+  obtain ⟨n1, n2, hn⟩ := len2 _ (wf_fn G hwf f hf)
+  obtain ⟨x1, x2, hx⟩ := len2 _ (wf_fc G hwf f hf)
+  obtain ⟨y1, y2, hy⟩ := len2 _ (wf_cc G hwf c hc)
+  obtain ⟨a, b, c', d, hk⟩ := len2mat _ (wf_perm G hwf c hc)
+  simp only [tHalf, dvec, ofGrid2, th2, dvec2]
+  rw [hn, hx, hy, hk]
+  simp only [v3, m3, V3.dot, V3.sub, V3.smul, M3.mulVec, C11.dot_cons, C11.dot_nil_left, C11.vsub_cons,
+    C11.vsub_nil_left, C11.smul_cons, C11.smul_nil, C11.mulVec_cons, C11.mulVec_nil]
+  congr 1 <;> ring
+
+theorem nodup_bndr (G : Grid2) : (ofGrid2 G).bndr.Nodup := List.Nodup.filter _ List.nodup_range
+
+theorem mem_bndr (G : Grid2) (f : Nat) : f ∈ (ofGrid2 G).bndr ↔ f < G.numFaces ∧ G.isBoundary f = true := by
+  simp [ofGrid2, List.mem_filter]
+
+/-- **TPFA model = two-point formula** on the converted grid -/
+theorem tpfa_eq_tp2 (G : Grid2) (hwf : G.WF) (hK : KorthOK G = true) (p bc : List Rat) (f : Nat)
+    (hf : f < G.numFaces) :
+    faceFlux (ofGrid2 G) f (fun c => p.getD c 0) (fun f => bc.getD f 0) = tp2 G p bc f := by
+  have hfk := korthOK_face G hK f hf
+  unfold faceFlux boundFluxT
+  rw [flux_rowApply, rowApply_diag _ (fun f => tB (ofGrid2 G) f * bsgn (ofGrid2 G) f) f _ (nodup_bndr G)]
+  unfold bsgn
+  rw [hfOf_ofGrid2 G f hf]
+  rcases G.fcells_cases hwf f hf with ⟨c, s, hl, hc⟩ | ⟨c1, s1, c2, s2, hl, hc1, hc2, hne⟩
+  · obtain ⟨hs, hth, hko⟩ := faceKorth_bnd G f c s hl hfk
+    have hb : G.isBoundary f = true := by simp [Grid2.isBoundary, hl]
+    have hfull : tFull (ofGrid2 G) f = th2 G f c s := by
+      unfold tFull; rw [hfOf_ofGrid2 G f hf, hl]
+      simp only [List.map_cons, List.map_nil, tHalf_ofGrid2 G hwf f c s hf hc]
+      exact harmonic_single _
+    rw [if_pos ((mem_bndr G f).mpr ⟨hf, hb⟩), hl]
+    by_cases hd : G.dirAt f = true
+    · have htp : tp2 G p bc f = s * th2 G f c s * (p.getD c 0 - bc.getD f 0) := by
+        unfold tp2; rw [hl]; simp [hd]
+      have hneu : neuAll (ofGrid2 G) f = false := by simp [neuAll, ofGrid2, hd]
+      have hdir : dirEff (ofGrid2 G) f = true := by simp [dirEff, ofGrid2, hd, hb]
+      simp only [trans, tB, hneu, hdir, hfull, htp, List.map_cons, List.map_nil, sgnDot, sgnSum,
+        Bool.false_eq_true, if_false, if_true]
+      ring
+    · have htp : tp2 G p bc f = s * bc.getD f 0 := by unfold tp2; rw [hl]; simp [hd]
+      have hneu : neuAll (ofGrid2 G) f = true := by simp [neuAll, ofGrid2, hd, hb]
+      simp only [trans, tB, hneu, htp, List.map_cons, List.map_nil, sgnDot, sgnSum, if_true]
+      ring
+  · obtain ⟨hs, hs2, ht1, ht2, hsum, hk1, hk2⟩ := faceKorth_int G f c1 c2 s1 s2 hl hfk
+    have hb : G.isBoundary f = false := by simp [Grid2.isBoundary, hl]
+    have hnb : f ∉ (ofGrid2 G).bndr := fun h => by
+      have := ((mem_bndr G f).mp h).2; rw [hb] at this; cases this
+    have hfull : tFull (ofGrid2 G) f = 1 / (1 / th2 G f c1 s1 + 1 / th2 G f c2 s2) := by
+      unfold tFull; rw [hfOf_ofGrid2 G f hf, hl]
+      simp only [List.map_cons, List.map_nil, tHalf_ofGrid2 G hwf f c1 s1 hf hc1,
+        tHalf_ofGrid2 G hwf f c2 s2 hf hc2]
+      exact harmonic_pair _ _ ht1 ht2
+    have htp : tp2 G p bc f = s1 * (1 / (1 / th2 G f c1 s1 + 1 / th2 G f c2 s2))
+        * (p.getD c1 0 - p.getD c2 0) := by unfold tp2; rw [hl]
+    have hneu : neuAll (ofGrid2 G) f = false := by simp [neuAll, ofGrid2, hb]
+    rw [if_neg hnb, hl]
+    simp only [trans, hneu, hfull, htp, List.map_cons, List.map_nil, sgnDot, hs2, Bool.false_eq_true,
+      if_false]
+    ring
+
+
+theorem rowApply_indicator (tr : List Trip) (i k : Nat) :
+    rowApply tr i (fun j => if j = k then 1 else 0) = entry tr i k := by
+  induction tr with
+  | nil => rfl
+  | cons t tr ih =>
+    obtain ⟨a, b, w⟩ := t
+    simp only [rowApply, entry, ih]
+    by_cases ha : a = i <;> by_cases hb : b = k <;> simp [ha, hb]
+
+theorem rowApply_zero (tr : List Trip) (i : Nat) : rowApply tr i (fun _ => 0) = 0 := by
+  induction tr with
+  | nil => rfl
+  | cons t tr ih => obtain ⟨a, b, w⟩ := t; simp [rowApply, ih]
+
+theorem getD_unit (n k j : Nat) (hk : k < n) : (Grid2.unit n k).getD j 0 = if j = k then 1 else 0 := by
+  unfold Grid2.unit
+  by_cases hj : j < n
+  · rw [getD_map_range _ n j 0 hj]
+  · rw [List.getD_eq_getElem?_getD, List.getElem?_eq_none (by simpa using Nat.le_of_not_lt hj)]
+    have : j ≠ k := by omega
+    simp [this]
+
+end VsMpfa
 
 end PorepyVerif.C12
